@@ -436,31 +436,54 @@ def revealMsgs (st : St) : List (Nat × List (Nat × Nat)) :=
 
 abbrev Revealed := List (Nat × List (Nat × Nat))
 
+/-- what `recoverMisbehavedShares` reads of the member state -/
+structure Pub11 where
+  fix11 : Bool
+  fixKey : Bool
+  fixAbort : Bool
+  snapOp : Nat → Bool     -- operating at the start of the recovery (snapshot)
+  curOp : Nat → Bool      -- operating now (used by the unchanged code only)
+  qual : Nat → Bool       -- a share of that member is held (QUAL)
+  evEph : List (Nat × List (Nat × Nat))
+  evShares : List (Nat × List (Nat × Cipher))
+  recvC : List (Nat × List (Nat × Nat))
+  q : Nat
+
+def pub11 (snap s : St) : Pub11 :=
+  ⟨s.fix11, s.fixKey, s.fixAbort, isOperating snap, isOperating s, fun m => hasKey m s.recvS,
+   s.evEph, s.evShares, s.recvC, s.q⟩
+
+inductive Rec where
+  | skip | dq | add (sv : Nat) | fatal
+
+/-- decision of `recoverMisbehavedShares` for one revealed key `e = (revealer, misbehaved, key)` -/
+def recoverDecision (P : Pub11) (self : Nat) (e : Nat × Nat × Nat) : Rec :=
+  if self = e.2.1 then .dq else
+  if (if P.fix11 then P.snapOp e.2.1 else P.curOp e.2.1) then .skip else
+  if P.fixKey && !P.qual e.2.1 then .dq else
+  match pubKeyOf P.evEph e.1 e.2.1 with
+  | none => if P.fixAbort then .dq else .fatal
+  | some rpk =>
+    if rpk ≠ e.2.2 then .dq else
+    match pubKeyOf P.evEph e.2.1 e.1 with
+    | none => .dq
+    | some mpk =>
+      match lookup e.2.1 P.evShares with
+      | none => .dq
+      | some sh =>
+        match decrypt (lookup e.1 sh) (symKey e.2.2 mpk) with
+        | none => .dq
+        | some (sv, tv) =>
+          if validComms P.q sv tv ((lookup e.2.1 P.recvC).getD []) e.1 then .add sv else .dq
+
 /-- `recoverMisbehavedShares`, one revealed key (`snap` = group state at the start of the recovery) -/
 def recover11Step (snap : St) (sr : St × Revealed) (e : Nat × Nat × Nat) : St × Revealed :=
-  let (s, rev) := sr
-  let revealer := e.1
-  let mis := e.2.1
-  let key := e.2.2
-  if s.status ≠ .ok then sr else
-  if s.id = mis then (markDQ s revealer, rev) else
-  if (if s.fix11 then isOperating snap mis else isOperating s mis) then sr else
-  if s.fixKey && !hasKey mis s.recvS then (markDQ s revealer, rev) else
-  match pubKeyOf s.evEph revealer mis with
-  | none => if s.fixAbort then (markDQ s revealer, rev) else ({ s with status := .errNoPubKey }, rev)
-  | some rpk =>
-    if rpk ≠ key then (markDQ s revealer, rev) else
-    match pubKeyOf s.evEph mis revealer with
-    | none => (markDQ s revealer, rev)
-    | some mpk =>
-      match lookup mis s.evShares with
-      | none => (markDQ s revealer, rev)
-      | some sh =>
-        match decrypt (lookup revealer sh) (symKey key mpk) with
-        | none => (markDQ s revealer, rev)
-        | some (sv, tv) =>
-          if validComms s.q sv tv ((lookup mis s.recvC).getD []) revealer then (s, addShare rev mis revealer sv)
-          else (markDQ s revealer, rev)
+  if sr.1.status ≠ .ok then sr else
+  match recoverDecision (pub11 snap sr.1) sr.1.id e with
+  | .skip => sr
+  | .dq => (markDQ sr.1 e.1, sr.2)
+  | .add sv => (sr.1, addShare sr.2 e.2.1 e.1 sv)
+  | .fatal => ({ sr.1 with status := .errNoPubKey }, sr.2)
 
 /-- validation of the (deduplicated) reveal messages -/
 def validate11 (st : St) (msgs : List (Nat × List (Nat × Nat))) : St :=
